@@ -338,6 +338,14 @@ def inline_aliases(fn, interesting):
                     for i, t in enumerate(tt.elts):
                         if isinstance(t, ast.Name):
                             defs[t.id] = ast.Subscript(value=n.value, slice=ast.Constant(value=i), ctx=ast.Load())
+                # `a, b = (X, Y)`: elementwise (the right-hand sides are evaluated before any target is bound, so this
+                # is only a renaming when no element reads one of the targets)
+                if len(n.targets) == 1 and isinstance(tt, (ast.Tuple, ast.List)) and isinstance(n.value, (ast.Tuple, ast.List)) and len(tt.elts) == len(n.value.elts):
+                    tnames = {t.id for t in tt.elts if isinstance(t, ast.Name)}
+                    if not any(isinstance(x, ast.Name) and x.id in tnames for v in n.value.elts for x in ast.walk(v)):
+                        for t, v in zip(tt.elts, n.value.elts):
+                            if isinstance(t, ast.Name) and not isinstance(v, ast.Starred):
+                                defs[t.id] = v
         elif isinstance(n, (ast.AugAssign, ast.For, ast.comprehension, ast.NamedExpr)):
             tg = n.target
             for t in _targets(tg):
@@ -760,6 +768,27 @@ def _simple_arg(a):
     return isinstance(a, (ast.Name, ast.Constant)) or (isinstance(a, (ast.Attribute, ast.Subscript)) and _simple_arg(a.value) and (not isinstance(a, ast.Subscript) or _simple_arg(a.slice)))
 
 
+def _return_chain(body):
+    """`if c1: return A` / `if c2: return B` / ... / `return Z` (each arm nothing but a return of a value, `else` arms
+    of the same kind allowed) as the conditional expression `A if c1 else B if c2 else Z`; None for any other body"""
+    if not body:
+        return None
+    st = body[0]
+    if isinstance(st, ast.Return) and st.value is not None and len(body) == 1:
+        return st.value
+    if isinstance(st, ast.If):
+        then = _return_chain(st.body)
+        if then is None:
+            return None
+        rest = _return_chain(st.orelse) if st.orelse else _return_chain(body[1:])
+        if st.orelse and len(body) > 1:
+            return None
+        if rest is None:
+            return None
+        return ast.IfExp(test=st.test, body=then, orelse=rest)
+    return None
+
+
 def _helper_shape(h):
     """('expr', E) for `return E`; ('stmts', body, E|None) when the only return is the last statement; None otherwise"""
     body = [s for s in h.body if not (isinstance(s, ast.Expr) and isinstance(s.value, ast.Constant))]
@@ -771,6 +800,9 @@ def _helper_shape(h):
         return None
     if len(body) == 1 and isinstance(body[0], ast.Return) and body[0].value is not None:
         return ("expr", body[0].value)
+    chain = _return_chain(body)
+    if chain is not None:
+        return ("expr", chain)
     if nested_defs:
         return None
     if not rets:
